@@ -75,7 +75,7 @@ def check(run):
     C01.alias(R, RID='C06.tail')     # inflate input / output never alias the reused receive buffer
 
 
-def parse_ext(R):
+def parse_ext(R, RID='C06.parse'):
     q = 'extension.parse_extension'
     f = R.func(q)
     g = R.cfg(q)
@@ -114,13 +114,45 @@ def parse_ext(R):
             seen += 1
         return isinstance(e, ast.Call) and isinstance(e.func, ast.Attribute) and e.func.attr == 'strip'
     for (k, v, n) in entries:
-        R.ob('C06.parse', 'option names are stripped', stripped(k, n),
+        R.ob(RID, 'option names are stripped', stripped(k, n),
              'option key `%s` is stored without .strip(): `name = value` (white space before "=") lands under a key with '
              'trailing space and the negotiated parameter is silently ignored' % U(k), func=f, node=(n[0] if isinstance(n, tuple) else n))
-        R.ob('C06.parse', 'option values are stripped', stripped(v, n), 'option value `%s` not stripped' % U(v), func=f,
+        R.ob(RID, 'option values are stripped', stripped(v, n), 'option value `%s` not stripped' % U(v), func=f,
              node=(n[0] if isinstance(n, tuple) else n))
     rets = [s_ for s_ in own_nodes(f.node) if isinstance(s_, ast.Return)]
-    R.ob('C06.parse', 'returns (token, options)', len(rets) == 1 and isinstance(rets[0].value, ast.Tuple) and len(rets[0].value.elts) == 2,
+    # the extension token itself is stripped too: `permessage-deflate ; param` (white space before the ";") must still
+    # compare equal to the extension name
+    for r_ in rets:
+        if not (isinstance(r_.value, ast.Tuple) and len(r_.value.elts) == 2):
+            continue
+        t_ = r_.value.elts[0]
+        okt = False
+        e_ = t_
+        for _ in range(3):
+            if isinstance(e_, ast.Call) and isinstance(e_.func, ast.Attribute) and e_.func.attr == 'strip':
+                okt = True
+                break
+            if isinstance(e_, ast.Subscript) and isinstance(e_.value, ast.Name):
+                # an element of a list whose elements are stripped when the list is built
+                cands = [s_ for s_ in own_nodes(f.node) if isinstance(s_, ast.Assign) and any(
+                    isinstance(t, ast.Name) and t.id == e_.value.id for t in s_.targets)]
+                if len(cands) == 1 and isinstance(cands[0].value, (ast.ListComp, ast.GeneratorExp)):
+                    e_ = cands[0].value.elt
+                    continue
+                break
+            if isinstance(e_, ast.Name):
+                cands = [s_ for s_ in own_nodes(f.node) if isinstance(s_, ast.Assign) and any(
+                    isinstance(t, ast.Name) and t.id == e_.id for t in s_.targets)]
+                if len(cands) == 1:
+                    e_ = cands[0].value
+                    continue
+                break
+            break
+        R.ob(RID, 'the extension token is stripped', okt,
+             'parse_extension returns the token `%s` without .strip(): "permessage-deflate ; param" (white space before the '
+             '";") does not compare equal to the extension name and the negotiated extension is silently dropped' % U(t_),
+             func=f, node=r_, construct='extension token strip')
+    R.ob(RID, 'returns (token, options)', len(rets) == 1 and isinstance(rets[0].value, ast.Tuple) and len(rets[0].value.elts) == 2,
          'parse_extension returns %s' % [U(r.value) for r in rets], func=f, node=None, construct='parse_extension return')
 
 
